@@ -331,7 +331,7 @@ class WorkflowConductor(object):
 
             if errors:
                 self.log_errors(errors)
-                self.request_workflow_status(statuses.FAILED)
+                self._fail_workflow_on_error()
 
             # Proceed if there is no issue with rendering of inputs and vars.
             if self.get_workflow_status() not in statuses.ABENDED_STATUSES:
@@ -419,6 +419,14 @@ class WorkflowConductor(object):
             raise exc.InvalidStatusTransition(self.workflow_state.status, value)
 
         self.workflow_state.status = value
+
+    def _fail_workflow_on_error(self):
+        # A runtime error is recorded wherever it occurs, but it cannot fail a workflow that
+        # is already canceled: the workflow stays canceled instead of raising on the request.
+        if self.get_workflow_status() == statuses.CANCELED:
+            return
+
+        self.request_workflow_status(statuses.FAILED)
 
     def request_workflow_status(self, status):
         # Record current workflow status.
@@ -512,7 +520,7 @@ class WorkflowConductor(object):
                 self.log_errors(errors)
 
                 if wf_status not in [statuses.EXPIRED, statuses.ABANDONED, statuses.CANCELED]:
-                    self.request_workflow_status(statuses.FAILED)
+                    self._fail_workflow_on_error()
 
     def get_workflow_output(self):
         return json_util.deepcopy(self._outputs) if self._outputs else None
@@ -733,7 +741,7 @@ class WorkflowConductor(object):
 
         # Return nothing if there is error(s) on determining next tasks.
         if fail_on_task_rendering:
-            self.request_workflow_status(statuses.FAILED)
+            self._fail_workflow_on_error()
             return []
 
         return sorted(next_tasks, key=lambda x: (x["id"], x["route"]))
@@ -834,7 +842,7 @@ class WorkflowConductor(object):
                 self.setup_retry_in_task_state(task_state_entry, in_ctx_idxs)
             except Exception as e:
                 self.log_error(e, task_id=task_id, route=route)
-                self.request_workflow_status(statuses.FAILED)
+                self._fail_workflow_on_error()
 
         # Append the task state entry to the list of task execution.
         task_state_entry_id = constants.TASK_STATE_ROUTE_FORMAT % (task_id, str(route))
@@ -966,7 +974,7 @@ class WorkflowConductor(object):
                 )
             except Exception as e:
                 self.log_error(e, task_id=task_id, route=route)
-                self.request_workflow_status(statuses.FAILED)
+                self._fail_workflow_on_error()
                 retry_required = False
 
             if retry_required:
@@ -999,7 +1007,7 @@ class WorkflowConductor(object):
                     task_state_entry["next"][task_transition_id] = all(evaluated_criteria)
                 except Exception as e:
                     self.log_error(e, task_id, route, task_transition_id)
-                    self.request_workflow_status(statuses.FAILED)
+                    self._fail_workflow_on_error()
                     continue
 
                 # If criteria met, then mark the next task staged and calculate outgoing context.
@@ -1015,7 +1023,7 @@ class WorkflowConductor(object):
 
                     if errors:
                         self.log_errors(errors, task_id, route, task_transition_id)
-                        self.request_workflow_status(statuses.FAILED)
+                        self._fail_workflow_on_error()
                         continue
 
                     out_ctx_idxs = json_util.deepcopy(task_state_entry["ctxs"]["in"])
